@@ -394,6 +394,9 @@ func (p *sparser) primary() Expr {
 			return &ELit{"bool", t.s}
 		case "nil":
 			return &ELit{"nil", ""}
+		case "forall", "exists":
+			p.p--
+			return p.expr()
 		}
 		return &EId{t.s}
 	case "op":
